@@ -24,6 +24,7 @@ import NV.Driver.HostsRefresh
 import NV.Driver.MgrX
 import NV.Driver.SvcStart
 import NV.Driver.Activate
+import NV.Driver.SvcProv
 import NV.Driver.SrcUrl
 import NV.Driver.RealEp
 import NV.Driver.TcpStream
@@ -34,7 +35,7 @@ import NV.Driver.EpEq
 import NV.Driver.Failover
 namespace NV
 
-def steppers : List (List String → Option String) := [stepCore, stepCap, stepRaceSoak, stepLMRace, stepListen, stepUpfault, Disc.stepDiscovery, Config.stepConfig, stepCache, stepFwd, stepProf, stepTTL, stepFS, stepClientInfo, stepEcs, LocalDrv.stepLocal, stepManager, stepRouter, HostsRefreshDrv.stepHostsRefresh, MgrX.stepMgrX, stepSvcStart, stepSvcLife, stepRunLoop, stepActivate, stepTcpStream, stepStaleQ, RealEp.stepRealEp, SrcUrlDrv.stepSrcUrl, stepWedge, stepSlowRefresh, stepE2E, stepEpEq, stepFailover]
+def steppers : List (List String → Option String) := [stepCore, stepCap, stepRaceSoak, stepLMRace, stepListen, stepUpfault, Disc.stepDiscovery, Config.stepConfig, stepCache, stepFwd, stepProf, stepTTL, stepFS, stepClientInfo, stepEcs, LocalDrv.stepLocal, stepManager, stepRouter, HostsRefreshDrv.stepHostsRefresh, MgrX.stepMgrX, stepSvcStart, stepSvcLife, stepRunLoop, stepActivate, stepTcpStream, stepStaleQ, RealEp.stepRealEp, SrcUrlDrv.stepSrcUrl, SvcProvDrv.stepSvcProv, stepWedge, stepSlowRefresh, stepE2E, stepEpEq, stepFailover]
 
 def step (line : String) : String :=
   let toks := line.splitOn " "
